@@ -712,6 +712,12 @@ func C17(c *core.Ctx) {
 	if c.HasViolation() {
 		return
 	}
+	// every remaining length 5..300 on three paths into a connection's outgoing ring
+	// (forwarded as received, encoded from the fields, re-encoded after a QoS downgrade)
+	framingSweep(c, "C17")
+	if c.HasViolation() {
+		return
+	}
 	c17clientDisconnect(c)
 }
 
